@@ -49,6 +49,21 @@ pub struct Named {
 #[derive(Debug, Clone, PartialEq, MessageBody)]
 pub struct Tuple(u64, Option<u32>);
 
+/// field names that look unused to the compiler (reserved / padding bytes of a wire format) still count
+#[derive(Debug, Clone, PartialEq, MessageBody)]
+pub struct Framed {
+    kind: u8,
+    _reserved: u16,
+    _pad: [u8; 4],
+    _cause: String,
+}
+
+#[derive(Debug, Clone, PartialEq, MessageBody)]
+pub enum FramedEnum {
+    Short { _flags: u8 },
+    Long { id: u32, _trailer: Vec<u8> },
+}
+
 #[derive(Debug, Clone, PartialEq, MessageBody)]
 pub struct Unit;
 
@@ -221,6 +236,13 @@ plain!(TwinB, "TwinB(u32)", |v| TwinB(v as u32), |_v| 4);
 plain!(Named, "derive struct Named", |v| Named { a: v as u8, b: s_of(v), c: (0..(v % 5)).map(|i| i as u16).collect() }, |v| 1 + s_len(v) + 2 * (v % 5) as usize);
 plain!(Tuple, "derive struct Tuple", |v| Tuple(v, if v % 2 == 0 { Some(1) } else { None }), |v| 8 + if v % 2 == 0 { 4 } else { 0 });
 plain!(Unit, "derive struct Unit", |_v| Unit, |_v| 0);
+plain!(Framed, "derive struct with _-prefixed fields", |v| Framed { kind: v as u8, _reserved: v as u16, _pad: [v as u8; 4], _cause: s_of(v) }, |v| 1 + 2 + 4 + s_len(v));
+plain!(
+    FramedEnum,
+    "derive enum with _-prefixed fields",
+    |v| if v % 2 == 0 { FramedEnum::Short { _flags: v as u8 } } else { FramedEnum::Long { id: v as u32, _trailer: s_of(v).into_bytes() } },
+    |v| if v % 2 == 0 { 1 } else { 4 + s_len(v) }
+);
 plain!(
     Enumd,
     "derive enum",
@@ -327,7 +349,7 @@ impl Zoo for NoDebug {
     }
 }
 
-pub const N_TYPES: usize = 44;
+pub const N_TYPES: usize = 46;
 
 macro_rules! dispatch {
     ($tag:expr, $f:ident, $($arg:expr),*) => {
@@ -375,7 +397,9 @@ macro_rules! dispatch {
             40 => $f::<&'static [u16]>($($arg),*),
             41 => $f::<(u8,)>($($arg),*),
             42 => $f::<Eight>($($arg),*),
-            _ => $f::<Ints>($($arg),*),
+            43 => $f::<Ints>($($arg),*),
+            44 => $f::<Framed>($($arg),*),
+            _ => $f::<FramedEnum>($($arg),*),
         }
     };
 }
